@@ -436,6 +436,24 @@ def run(ctx):
                     ctx.oblig(ok, {"prefix": lo + "/" + up}, "same arm")
                     if not ok:
                         ctx.violation("prefix-case|%s" % lo, sp_file_line(t.get("sp")), "the literal prefix `%s` and `%s` are not treated alike" % (lo, up))
+    # a register token is `r`/`R`, exactly one digit 0-7, and then the end of the identifier: `r10` or `r25` is a label, not register 1 or 2
+    from ..panics import Ledger as _Ledger
+    _L7 = _Ledger(ctx, [])
+    regb = [(b, s) for b, i, s in at.assigns() if s["r"]["k"] == "agg" and str(s["r"].get("adt", "")).endswith("lexer::TokenKind") and s["r"].get("variant") == "Reg"]
+    ctx.need(regb, "TokenKind::Reg construction in advance_token")
+    for b, s in regb:
+        ctx.instance(1)
+        cons = _L7._dom_constraints(at, b, stable=False)
+        len2 = any(c[0] == "bin" and c[1] == "Eq" and v != 0 and ("const", 2) in (c[2], c[3]) and "pos_in_token" in expr_str(c, 200) for c, v in cons) or \
+            any(c[0] == "bin" and c[1] == "Ne" and v == 0 and ("const", 2) in (c[2], c[3]) and "pos_in_token" in expr_str(c, 200) for c, v in cons)
+        # or: nothing that consumes several characters runs between the prefix and the token (a single digit was bumped)
+        multi = [c for bb, t, c in at.calls() if c and (c.endswith("Cursor::<'sess>::take_while") or c.endswith("::take_while")) and at.dominates(bb, b)
+                 and any(x[0] == "fn" and "is_reg_num" in str(x[1]) for a in t["args"] for x in expr_walk(at.expr(a, 6)))]
+        ok = len2 or not multi
+        ctx.oblig(ok, {"register token": "length 2" if len2 else ("single digit" if not multi else "?")}, "r/R + exactly one digit")
+        if not ok:
+            ctx.violation("register-length", sp_file_line(s.get("sp")), "a register token is produced after consuming any number of digits 0-7 (no test that the token is exactly two "
+                          "characters long): `r10`, `r25`, `R77` are read as r1, r2, r7 instead of as labels")
     ctx.finish_rule()
 
     # ------------------------------------------------------------------ R8
